@@ -47,6 +47,28 @@ TEMPLATES = {
     "same": (1, lambda s: s),          # an alias: the target receives the very same object as the source
 }
 
+
+class Helpers:
+    """functions reached through a reference (f = m.ref(Helpers, 'f')): f.tot(d['n']) reads a container AS A WHOLE"""
+
+    @staticmethod
+    def tot(c):
+        return float(sum(c.values())) if isinstance(c, dict) else float(sum(c))
+
+
+# container-level sources (opt-in: op_alphabet(containers=True) / random_history(containers=True))
+CLOCS = [("n",), ("l",)]
+CTEMPLATES = {"tot": (1, Helpers.tot)}
+
+
+def is_container(loc):
+    return loc in CLOCS
+
+
+def members(base, loc):
+    c = get_raw(base, loc)
+    return [loc + (k,) for k in (c.keys() if isinstance(c, dict) else range(len(c)))]
+
 INPLACE = {"+=": operator.iadd, "*=": operator.imul, "-=": operator.isub}
 
 
@@ -82,6 +104,8 @@ def opstr(op):
     k = op[0]
     if k == "val":
         return f"{locstr(op[1])} = {op[2]!r}"
+    if k == "expr" and op[2] in CTEMPLATES:
+        return f"{locstr(op[1])} = f.{op[2]}({', '.join(locstr(s) for s in op[3])})"
     if k == "expr":
         return f"{locstr(op[1])} = {op[2]}({', '.join(locstr(s) for s in op[3])})"
     if k == "unreg":
@@ -99,9 +123,13 @@ class Oracle:
         self.defs = {}                    # loc -> (template, sources) | ('chain', inner_def, opname, operand)
 
     def sources(self, d):
+        """leaf locations a definition reads (a container read as a whole reads every member)"""
         if d[0] == "chain":
             return self.sources(d[1])
-        return list(d[1])
+        out = []
+        for s in d[1]:
+            out += members(self.base, s) if is_container(s) else [s]
+        return out
 
     def feeds(self, loc, target):
         """does `target`'s value (transitively) depend on `loc` by data flow?"""
@@ -117,6 +145,7 @@ class Oracle:
 
     def would_cycle(self, loc, srcs):
         # defining loc from srcs creates a cycle iff some source depends on loc (or is loc)
+        srcs = [m for s in srcs for m in (members(self.base, s) if is_container(s) else [s])]
         for s in srcs:
             if s == loc:
                 return True
@@ -136,13 +165,18 @@ class Oracle:
         if d[0] == "chain":
             inner = self.eval_def(d[1], memo)
             return {"+=": operator.add, "*=": operator.mul, "-=": operator.sub}[d[2]](inner, d[3])
-        f = TEMPLATES[d[0]][1]
+        f = (CTEMPLATES.get(d[0]) or TEMPLATES[d[0]])[1]
         return f(*[self.value(s, memo) for s in d[1]])
 
     def value(self, loc, memo=None):
         memo = {} if memo is None else memo
         if loc not in memo:
-            if loc in self.defs:
+            if is_container(loc):
+                # a container's value is assembled from its members' expected values
+                c = get_raw(self.base, loc)
+                memo[loc] = ({k: self.value(loc + (k,), memo) for k in c} if isinstance(c, dict)
+                             else [self.value(loc + (i,), memo) for i in range(len(c))])
+            elif loc in self.defs:
                 memo[loc] = self.eval_def(self.defs[loc], memo)
             else:
                 memo[loc] = get_raw(self.base, loc)
@@ -152,7 +186,7 @@ class Oracle:
         k = op[0]
         if k == "val":
             self.defs.pop(op[1], None)
-            set_raw(self.base, op[1], op[2])
+            set_raw(self.base, op[1], copy.deepcopy(op[2]))
         elif k == "expr":
             self.defs[op[1]] = (op[2], tuple(op[3]))
         elif k == "unreg":
@@ -230,6 +264,20 @@ class World:
         self.data = initial_data()
         self.m = xdeps.Manager()
         self.r = self.m.ref(self.data, "d")
+        self._f = None
+
+    @property
+    def f(self):
+        # created on first use only: worlds that never read a container as a whole have exactly one container
+        if self._f is None:
+            self._f = self.m.ref(Helpers, "f")
+        return self._f
+
+    def build(self, tn, srcs):
+        """the deferred expression  template(sources)  over this world's refs"""
+        if tn in CTEMPLATES:
+            return getattr(self.f, tn)(*[self.ref(s) for s in srcs])
+        return TEMPLATES[tn][1](*[self.ref(s) for s in srcs])
 
     def ref(self, loc):
         cur = self.r
@@ -259,10 +307,9 @@ class World:
     def _apply(self, op):
         k = op[0]
         if k == "val":
-            self.parent_set(op[1], op[2])
+            self.parent_set(op[1], copy.deepcopy(op[2]))
         elif k == "expr":
-            f = TEMPLATES[op[2]][1]
-            self.parent_set(op[1], f(*[self.ref(s) for s in op[3]]))
+            self.parent_set(op[1], self.build(op[2], op[3]))
         elif k == "unreg":
             rf = self.ref(op[1])
             if rf in self.m.tasks:
@@ -285,7 +332,10 @@ def history_script(ops, tail=""):
              "    def __repr__(self): return 'Obj(%r)' % (self.__dict__,)",
              "d = {'a': 1.0, 'b': 2.0, 'c': 3.0, 'n': {'x': 1.5, 'y': 2.5, 'z': 4.0}, 'l': [1.0, 2.0, 3.0], 'o': Obj(p=1.25, q=2.25)}",
              "m = xdeps.Manager(); r = m.ref(d, 'd')"]
-    src = {"dbl": "2 * {0}", "inc": "{0} + 1", "neg": "-{0}", "sum": "{0} + {1}", "mix": "{0} * {1} - 1",
+    if any(op[0] == "expr" and op[2] in CTEMPLATES for op in ops):
+        lines.append("class H:\n    @staticmethod\n    def tot(c): return float(sum(c.values())) if isinstance(c, dict) else float(sum(c))\n"
+                     "f = m.ref(H, 'f')")
+    src = {"tot": "f.tot({0})", "dbl": "2 * {0}", "inc": "{0} + 1", "neg": "-{0}", "sum": "{0} + {1}", "mix": "{0} * {1} - 1",
            "rsub": "10 - {0}", "div": "{0} / ({1} + 100)", "same": "{0}"}
 
     def rs(loc):
@@ -306,8 +356,19 @@ def history_script(ops, tail=""):
     return "\n".join(lines) + "\n" + tail
 
 
-def op_alphabet(small=True):
-    """the operation alphabet used for exhaustive enumeration"""
+CONTAINER_OPS = [
+    ("expr", ("c",), "tot", (("n",),)), ("expr", ("b",), "tot", (("l",),)), ("expr", ("o", ".q"), "tot", (("n",),)),
+    ("expr", ("l", 1), "tot", (("n",),)),
+    ("val", ("l", 2), 5.0), ("val", ("n", "z"), 5.0),                       # members nobody reads one by one
+    ("val", ("l",), [4.0, 5.0, 6.0]), ("val", ("n",), {"x": 0.5, "y": 0.25, "z": 8.0}),   # a whole container replaced by value
+]
+
+
+def op_alphabet(small=True, containers=False):
+    """the operation alphabet used for exhaustive enumeration (containers=True: also definitions that read a nested
+    container as a whole, assignments to members nobody reads one by one, and whole containers replaced by value)"""
+    if containers:
+        return op_alphabet(small) + list(CONTAINER_OPS)
     ops = []
     vals = [5.0]
     locs = [("a",), ("b",), ("n", "x"), ("n", "y"), ("l", 0), ("o", ".p")] if small else LOCS
@@ -333,11 +394,20 @@ def legal(oracle, op):
     """acyclic data flow only (the statement of C01 excludes cyclic definitions)"""
     if op[0] == "expr":
         return not oracle.would_cycle(op[1], op[3])
+    if op[0] == "val" and is_container(op[1]):
+        # the statement of C01 excludes overwriting a container that holds an expression-defined member
+        return not any(m in oracle.defs for m in members(oracle.base, op[1]))
     return True
 
 
-def random_history(rng, length, alphabet=None):
-    alphabet = alphabet or op_alphabet(small=False)
+def random_container(rng, loc):
+    if loc == ("n",):
+        return {k: round(rng.uniform(-9, 9), 3) for k in ("x", "y", "z")}
+    return [round(rng.uniform(-9, 9), 3) for _ in range(3)]
+
+
+def random_history(rng, length, alphabet=None, containers=False):
+    alphabet = alphabet or op_alphabet(small=False, containers=containers)
     orc = Oracle()
     ops = []
     tries = 0
@@ -345,8 +415,11 @@ def random_history(rng, length, alphabet=None):
         tries += 1
         op = rng.choice(alphabet)
         if op[0] == "val":
-            op = ("val", op[1], round(rng.uniform(-9, 9), 3))
-        if op[0] == "expr" and rng.random() < 0.5:
+            op = ("val", op[1], random_container(rng, op[1]) if is_container(op[1]) else round(rng.uniform(-9, 9), 3))
+        if op[0] == "expr" and op[2] in CTEMPLATES:
+            if rng.random() < 0.5:
+                op = ("expr", rng.choice(LOCS), op[2], (rng.choice(CLOCS),))
+        elif op[0] == "expr" and rng.random() < 0.5:
             tn = rng.choice(sorted(TEMPLATES))
             ar = TEMPLATES[tn][0]
             op = ("expr", rng.choice(LOCS), tn, tuple(rng.choice(LOCS) for _ in range(ar)))
